@@ -85,6 +85,9 @@ def rules(p):
     R.append(("window.in_summarize_nested", "FunctionTypeError", lambda x: x >> p.group_by(C.g) >> p.summarize(y=C.b.max() + win())))
     # an aggregate with partition_by= is a window function: it does not aggregate for summarize
     R.append(("window.partitioned_agg_in_summarize", "FunctionTypeError", lambda x: x >> p.group_by(C.g) >> p.summarize(y=C.b.sum(partition_by=C.a))))
+    # ... also when its operand is a grouping column, which passes the "neither aggregated nor grouping" rule (F71)
+    R.append(("window.partitioned_agg_of_key_in_summarize", "FunctionTypeError", lambda x: x >> p.group_by(C.g) >> p.summarize(y=C.g.sum(partition_by=C.g))))
+    R.append(("window.partitioned_count_star_in_summarize", "FunctionTypeError", lambda x: x >> p.group_by(C.g) >> p.summarize(y=p.count(partition_by=C.g))))
     R.append(("window.partitioned_agg_in_summarize_ungrouped", "FunctionTypeError", lambda x: x >> p.summarize(y=C.b.max(partition_by=C.g))))
     R.append(("window.partitioned_agg_in_summarize_nested", "FunctionTypeError", lambda x: x >> p.group_by(C.g) >> p.summarize(y=C.b.min() + C.b.sum(partition_by=C.a))))
     R.append(("window.partitioned_agg_in_summarize_case", "FunctionTypeError", lambda x: x >> p.group_by(C.g) >> p.summarize(y=p.when(C.b.max() > 0).then(C.b.sum(partition_by=C.a)).otherwise(0))))
@@ -115,6 +118,7 @@ def rules(p):
     R.append(("unknown.rename_missing", "ValueError", lambda x: x >> p.rename({"nope": "q"})))
     # 7. duplicate names
     R.append(("duplicate.rename_existing", "ValueError", lambda x: x >> p.rename({"b": "g"})))
+    R.append(("duplicate.rename_to_empty", "ValueError", lambda x: x >> p.rename({"b": ""})))  # F72: metadata kept the old name, the export had ''
     R.append(("duplicate.rename_two_same", "ValueError", lambda x: x >> p.rename({"b": "q", "g": "q"})))
     # 10. slice_head on a grouped table; markers outside arrange
     R.append(("grouped.slice_head", "ValueError", lambda x: x >> p.group_by(C.g) >> p.slice_head(1)))
